@@ -426,9 +426,11 @@ def fmt_seg(s, term='~', ele='*', sub=':', icvn='00401', rep=None):
     return lead + s.id + ele + ele.join(els) + trail + term
 
 
-def pad_to_boundary(doc, term='~', ele='*', sub=':', eol='\n', rep=None, delta=-1, bufsize=8192, header=106):
+def pad_to_boundary(doc, term='~', ele='*', sub=':', eol='\n', rep=None, delta=-1, bufsize=8192, header=106, safe=False):
     """Lengthen free-text (AN, no code list) values so that a segment terminator lands on offset
-    header + bufsize*k + delta (a read-buffer edge of the reader).  Returns the boundary hit or None."""
+    header + bufsize*k + delta (a read-buffer edge of the reader).  Returns the boundary hit or None.
+    safe: keep the document conformant - no date/time-period elements (their text is a date in the format their qualifier names)
+    and no HL segments (HL01/HL02 are the hierarchy's bookkeeping)."""
     pieces = [fmt_seg(s, term, ele, sub, doc.icvn, rep) + eol for s in doc.segs]
     total = sum(len(x) for x in pieces)
     ends = []
@@ -448,7 +450,11 @@ def pad_to_boundary(doc, term='~', ele='*', sub=':', eol='\n', rep=None, delta=-
                 sg = doc.segs[j]
                 if sg.id in ('ISA', 'GS', 'ST', 'SE', 'GE', 'IEA') or getattr(sg, 'raw_pattern', None) is not None:
                     continue
+                if safe and sg.id == 'HL':
+                    continue
                 for ei, c in enumerate(sg.node.children):
+                    if safe and c.kind == 'ele' and c.de == '1251':
+                        continue
                     if c.kind == 'ele' and c.dtype == 'AN' and not c.codes and not c.ext and not c.regex and ei > 0 \
                             and ei < len(sg.vals) and sg.vals[ei][0] != '' and c.usage != 'N':
                         room = c.maxl - len(sg.vals[ei][0])
